@@ -1,4 +1,4 @@
-(** C29: invariants of the HTTP/2 DATA-sending loop model over every schedule. *)
+(** C29: invariants of the HTTP/2 DATA-sending model over every schedule. *)
 From Coq Require Import List ZArith Bool Arith Lia.
 From C29 Require Import Model.
 Import ListNotations.
@@ -8,11 +8,14 @@ Definition ev_ok (e : ev) : Prop :=
   match e with
   | EData _ n sw cw mf => 0 < n /\ n <= sw /\ n <= cw /\ n <= mf
   | EEnd _ snt bdy => snt = bdy
+  | _ => True
   end.
 
-(** per stream: bytes sent + bytes still queued = bytes written; the queue is data chunks then the end sentinel *)
+(** per stream: bytes sent + bytes still queued = bytes written; the queue is data chunks, then the end sentinel
+    exactly when the response was finished *)
 Definition stream_ok (x : stream) : Prop :=
-  sent x + sum_data (q x) = body x /\ exists ds, q x = map Some ds ++ [None].
+  sent x + sum_data (q x) = body x /\
+  exists ds, q x = map Some ds ++ (if finished x then [None] else []).
 
 Record Inv (s : st) : Prop := mkInv {
   i_log : Forall ev_ok (log s);
@@ -48,15 +51,47 @@ Proof.
   intros H Hf. unfold find_stream in Hf. apply find_some in Hf. rewrite Forall_forall in H. apply H, Hf.
 Qed.
 
+(** a change that leaves queue, sent, body and finished alone *)
+Definition neutral (f : stream -> stream) : Prop :=
+  forall y, q (f y) = q y /\ sent (f y) = sent y /\ body (f y) = body y /\ finished (f y) = finished y.
+
+Lemma neutral_ok f y : neutral f -> stream_ok y -> stream_ok (f y).
+Proof.
+  intros Hn [A [ds B]]. destruct (Hn y) as [E1 [E2 [E3 E4]]]. unfold stream_ok. rewrite E1, E2, E3, E4. eauto.
+Qed.
+
+Ltac neut := intros y; repeat split; reflexivity.
+
+Lemma upd_inv i f s : Inv s -> (forall y, stream_ok y -> stream_ok (f y)) -> Inv (upd i f s).
+Proof. intros [Hl Hs] Hf. constructor; cbn; [exact Hl | apply Forall_upd; assumption]. Qed.
+
+Lemma upd_neutral_inv i f s : Inv s -> neutral f -> Inv (upd i f s).
+Proof. intros HI Hn. apply upd_inv; [exact HI | intros y; apply neutral_ok, Hn]. Qed.
+
+Lemma emit_inv e s : Inv s -> ev_ok e -> Inv (emit e s).
+Proof. intros [Hl Hs] He. constructor; cbn; [constructor; assumption | exact Hs]. Qed.
+
+Lemma resched_inv i s : Inv s -> Inv (resched i s).
+Proof. intros [Hl Hs]. constructor; assumption. Qed.
+
+Lemma flow_blocked_inv i s : Inv s -> Inv (flow_blocked i s).
+Proof.
+  intros HI. unfold flow_blocked. destruct (find_stream i (streams s)); [|exact HI].
+  destruct (hasprod s0 && producing s0); [|exact HI].
+  apply emit_inv; [|exact I]. apply upd_neutral_inv; [exact HI | neut].
+Qed.
+
 Lemma send_on_ok cw mf y : stream_ok y -> stream_ok (send_on cw mf y).
 Proof.
   intros Hok. pose proof Hok as [Hs [ds Hq]]. unfold send_on.
   destruct (q y) as [|[n|] rest] eqn:Eq; try exact Hok.
-  set (mfs := Z.max 0 (Z.min mf (Z.min (swin y) cw))).
+  set (mfs := Z.max 0 (Z.min mf (locwin cw y))).
   destruct (Z.ltb_spec 0 (Z.min n mfs)) as [Hpos|Hnp]; [|exact Hok].
-  destruct ds as [|d ds]; cbn in Hq; [discriminate|]. inversion Hq; subst d rest.
-  rewrite sum_data_cons in Hs.
-  destruct (Z.ltb_spec mfs n) as [Hlt|Hge]; split; cbn [q sent body].
+  destruct ds as [|d ds]; cbn in Hq.
+  { destruct (finished y); discriminate. }
+  inversion Hq; subst d rest. rewrite sum_data_cons in Hs.
+  unfold stream_ok. cbn [q sent body finished set_sent set_blocked set_swin set_q].
+  destruct (Z.ltb_spec mfs n) as [Hlt|Hge]; split.
   - rewrite sum_data_cons. lia.
   - exists ((n - mfs) :: ds). reflexivity.
   - lia.
@@ -66,95 +101,226 @@ Qed.
 Lemma frame_len_bounds cw mf x n rest :
   q x = Some n :: rest -> 0 < frame_len cw mf x ->
   frame_len cw mf x <= swin x /\ frame_len cw mf x <= cw /\ frame_len cw mf x <= mf.
-Proof. intros Eq. unfold frame_len. rewrite Eq. lia. Qed.
+Proof. intros Eq. unfold frame_len, locwin. rewrite Eq. lia. Qed.
 
 Lemma adv_on_inv i s : Inv s -> Inv (adv_on i s).
 Proof.
-  intros [Hl Hs]. unfold adv_on.
-  destruct (find_stream i (streams s)) as [x|] eqn:Ef; [|constructor; assumption].
+  intros HI. pose proof HI as [Hl Hs]. unfold adv_on.
+  destruct (find_stream i (streams s)) as [x|] eqn:Ef; [|exact HI].
   pose proof (find_stream_ok _ _ _ Hs Ef) as [Hsum [ds Hq]].
-  destruct (Z.ltb (Z.min (swin x) (cwin s)) 0); [constructor; assumption|].
-  destruct (q x) as [|[n|] rest] eqn:Eq; [constructor; assumption| |].
-  - destruct (Z.ltb_spec 0 (frame_len (cwin s) (maxf s) x)) as [Hpos|Hnp]; [|constructor; assumption].
-    constructor; cbn.
-    + constructor; [|exact Hl]. cbn. pose proof (frame_len_bounds _ _ _ _ _ Eq Hpos). lia.
-    + apply Forall_upd; [exact Hs | intros y; apply send_on_ok].
-  - constructor; cbn.
-    + constructor; [|exact Hl]. cbn.
-      destruct ds as [|d ds]; cbn in Hq; [|discriminate]. inversion Hq; subst rest. cbn in Hsum. lia.
-    + apply Forall_remove, Hs.
+  destruct (Z.ltb (locwin (cwin s) x) 0); [apply resched_inv, HI|].
+  destruct (q x) as [|[n|] rest] eqn:Eq; [exact HI| |].
+  - apply resched_inv.
+    set (s1 := if 0 <? frame_len (cwin s) (maxf s) x then _ else s).
+    assert (H1 : Inv s1).
+    { unfold s1. destruct (Z.ltb_spec 0 (frame_len (cwin s) (maxf s) x)) as [Hpos|Hnp]; [|exact HI].
+      constructor; cbn.
+      - constructor; [|exact Hl]. cbn. pose proof (frame_len_bounds _ _ _ _ _ Eq Hpos). lia.
+      - apply Forall_upd; [exact Hs | intros y; apply send_on_ok]. }
+    destruct (find_stream i (streams s1)); [|exact H1].
+    destruct (rem_out (cwin s1) s0 <=? 0); [apply flow_blocked_inv, H1 | exact H1].
+  - apply resched_inv, emit_inv.
+    + constructor; cbn; [exact Hl | apply Forall_remove, Hs].
+    + cbn. destruct ds as [|d ds]; cbn in Hq; [|discriminate].
+      destruct (finished x); inversion Hq; subst rest. cbn in Hsum. lia.
+Qed.
+
+Lemma run_iter_inv s : Inv s -> Inv (run_iter s).
+Proof.
+  intros HI. unfold run_iter. destruct (pick s); [apply adv_on_inv, HI|]. destruct HI; constructor; assumption.
+Qed.
+
+Lemma fire_inv s : Inv s -> Inv (fire s).
+Proof. intros HI. unfold fire. destruct (scheduled s); [exact HI | apply run_iter_inv, HI]. Qed.
+
+Lemma app_chunk_ok n y : stream_ok y -> stream_ok (app_chunk n y).
+Proof.
+  intros Hok. pose proof Hok as [Hs [ds Hq]]. unfold app_chunk. destruct (finished y) eqn:Ef; [exact Hok|].
+  unfold stream_ok. cbn [q sent body finished set_body set_q]. rewrite Ef. split.
+  - rewrite sum_data_app. cbn. lia.
+  - exists (ds ++ [n]). rewrite Hq, app_nil_r, map_app. cbn. rewrite app_nil_r. reflexivity.
+Qed.
+
+Lemma app_end_ok y : stream_ok y -> stream_ok (app_end y).
+Proof.
+  intros Hok. pose proof Hok as [Hs [ds Hq]]. unfold app_end. destruct (finished y) eqn:Ef; [exact Hok|].
+  unfold stream_ok. cbn [q sent body finished set_blocked set_finished set_q]. split.
+  - rewrite sum_data_app. cbn. lia.
+  - exists ds. rewrite Hq, app_nil_r. reflexivity.
+Qed.
+
+Lemma write_to_inv i n s : Inv s -> Inv (write_to i n s).
+Proof.
+  intros HI. unfold write_to. destruct (find_stream i (streams s)) as [x0|]; [|exact HI].
+  destruct (finished x0); [exact HI|].
+  set (s1 := upd i (app_chunk n) s).
+  assert (H1 : Inv s1) by (apply upd_inv; [exact HI | intros y; apply app_chunk_ok]).
+  set (s2 := match find_stream i (streams s1) with Some x => _ | None => s1 end).
+  assert (H2 : Inv s2).
+  { unfold s2. destruct (find_stream i (streams s1)); [|exact H1].
+    destruct (0 <? locwin (cwin s1) s0); [|exact H1].
+    apply fire_inv, upd_neutral_inv; [exact H1 | neut]. }
+  destruct (find_stream i (streams s2)); [|exact H2].
+  destruct (rem_out (cwin s2) s0 <=? 0); [apply flow_blocked_inv, H2 | exact H2].
+Qed.
+
+Lemma end_req_inv i s : Inv s -> Inv (end_req i s).
+Proof.
+  intros HI. unfold end_req. destruct (find_stream i (streams s)) as [x0|]; [|exact HI].
+  destruct (finished x0); [exact HI|].
+  apply fire_inv, upd_inv; [exact HI | intros y; apply app_end_ok].
+Qed.
+
+Lemma prod_loop_inv fuel i : forall s, Inv s -> Inv (prod_loop fuel i s).
+Proof.
+  induction fuel as [|f IH]; intros s HI; cbn [prod_loop]; [exact HI|].
+  destruct (find_stream i (streams s)) as [x|]; [|exact HI].
+  destruct (hasprod x && producing x); [|exact HI].
+  destruct (pleft x) as [|k]; [exact HI|].
+  apply IH, write_to_inv, upd_neutral_inv; [exact HI | neut].
+Qed.
+
+Lemma prod_run_inv i s : Inv s -> Inv (prod_run i s).
+Proof.
+  intros HI. unfold prod_run.
+  set (s1 := prod_loop _ i s). assert (H1 : Inv s1) by (apply prod_loop_inv, HI).
+  destruct (find_stream i (streams s1)) as [x|]; [|exact H1].
+  destruct (hasprod x && Nat.eqb (pleft x) 0); [|exact H1].
+  apply end_req_inv, upd_neutral_inv; [exact H1 | neut].
+Qed.
+
+Lemma window_updated_inv i s : Inv s -> Inv (window_updated i s).
+Proof.
+  intros HI. unfold window_updated. destruct (find_stream i (streams s)) as [x|]; [|exact HI].
+  destruct (hasprod x && negb (producing x) && (0 <? rem_out (cwin s) x)); [|exact HI].
+  apply prod_run_inv, emit_inv; [|exact I]. apply upd_neutral_inv; [exact HI | neut].
+Qed.
+
+Lemma unblock_if_queued_inv i s : Inv s -> Inv (unblock_if_queued i s).
+Proof.
+  intros HI. unfold unblock_if_queued. apply upd_inv; [exact HI|].
+  intros y Hy. destruct (q y) eqn:E; [exact Hy|].
+  destruct Hy as [A [ds B]]. unfold stream_ok. cbn. rewrite E in *. eauto.
+Qed.
+
+Lemma conn_window_updated_inv s : Inv s -> Inv (conn_window_updated s).
+Proof.
+  unfold conn_window_updated. generalize (map sid (streams s)). intros l. revert s.
+  induction l as [|i r IH]; intros s HI; cbn; [exact HI|].
+  apply IH, unblock_if_queued_inv, window_updated_inv, HI.
 Qed.
 
 Lemma step_inv s o : Inv s -> Inv (step s o).
 Proof.
-  intros HI. destruct o as [|[|t] inc|v|v]; cbn [step].
-  - destruct (scheduled s); [|exact HI]. destruct (pick s); [apply adv_on_inv, HI|].
-    destruct HI; constructor; assumption.
-  - destruct HI as [Hl Hs]. constructor; cbn; [exact Hl|].
-    apply Forall_mapf; [exact Hs|]. intros y [A B]. split; assumption.
-  - destruct HI as [Hl Hs]. constructor; cbn; [exact Hl|].
-    apply Forall_upd; [exact Hs|]. intros y [A B]. split; assumption.
-  - destruct HI as [Hl Hs]. constructor; cbn; [exact Hl|].
-    apply Forall_mapf; [exact Hs|]. intros y [A B]. split; assumption.
-  - destruct HI as [Hl Hs]. constructor; cbn; assumption.
+  intros HI. destruct o as [|[|t] inc|v|v|i|i]; cbn [step].
+  - destruct (scheduled s); [apply run_iter_inv, HI | exact HI].
+  - apply fire_inv, conn_window_updated_inv. destruct HI; constructor; assumption.
+  - destruct (find_stream (S t) (streams s)); [|apply fire_inv, HI].
+    apply fire_inv, window_updated_inv, unblock_if_queued_inv, upd_neutral_inv; [exact HI | neut].
+  - apply fire_inv, conn_window_updated_inv. destruct HI as [Hl Hs]. constructor; cbn; [exact Hl|].
+    apply Forall_mapf; [exact Hs|]. intros y0. apply neutral_ok. neut.
+  - destruct HI; constructor; assumption.
+  - destruct (find_stream i (streams s)) as [x|]; [|exact HI].
+    destruct (mleft x) as [|n r]; [exact HI|]. destruct (finished x); [exact HI|].
+    apply write_to_inv, upd_neutral_inv; [exact HI | neut].
+  - destruct (find_stream i (streams s)) as [x|]; [|exact HI].
+    destruct (hasprod x); [exact HI | apply end_req_inv, HI].
 Qed.
 
-Lemma mk_streams_ok w bodies : forall k, Forall stream_ok (mk_streams k w bodies).
+Lemma steps_inv ops : forall s, Inv s -> Inv (fold_left step ops s).
+Proof. induction ops as [|o r IH]; intros s H; cbn; [exact H|]. apply IH, step_inv, H. Qed.
+
+Lemma new_stream_ok i w a : stream_ok (new_stream i w a).
+Proof. destruct a; split; cbn; try reflexivity; exists []; reflexivity. Qed.
+
+Lemma render_inv i a s : Inv s -> Inv (render i a s).
 Proof.
-  induction bodies as [|b r IH]; intros k; cbn; constructor; [|apply IH].
-  split; cbn.
-  - rewrite sum_data_app. cbn. lia.
-  - exists b. reflexivity.
+  intros HI. destruct a as [cs|cs|c n]; cbn [render]; [| exact HI | apply prod_run_inv, HI].
+  apply step_inv. revert s HI. induction cs as [|c cs IH]; intros s HI; cbn [fold_left]; [exact HI|].
+  apply IH, step_inv, HI.
 Qed.
 
-Lemma init_inv w bodies : Inv (init w bodies).
-Proof. constructor; cbn; [constructor | apply mk_streams_ok]. Qed.
-
-Lemma run_inv w bodies ops : Inv (run w bodies ops).
+Lemma setup_inv apps : forall k s, Inv s -> Inv (setup k apps s).
 Proof.
-  unfold run. generalize (init_inv w bodies). generalize (init w bodies).
-  induction ops as [|o r IH]; intros s H; cbn; [exact H|]. apply IH, step_inv, H.
+  induction apps as [|a r IH]; intros k s HI; cbn [setup]; [exact HI|].
+  apply IH, render_inv. destruct HI as [Hl Hs]. constructor; cbn; [exact Hl|].
+  apply Forall_app. split; [exact Hs | constructor; [apply new_stream_ok | constructor]].
 Qed.
+
+Lemma init_inv w apps : Inv (init w apps).
+Proof. apply setup_inv. constructor; constructor. Qed.
+
+Lemma run_inv w apps ops : Inv (run w apps ops).
+Proof. apply steps_inv, init_inv. Qed.
 
 (** ---- property statements ---- *)
-Lemma reach_window w bodies ops i n sw cw mf :
-  In (EData i n sw cw mf) (log (run w bodies ops)) -> 0 < n /\ n <= sw /\ n <= cw /\ n <= mf.
+Lemma reach_window w apps ops i n sw cw mf :
+  In (EData i n sw cw mf) (log (run w apps ops)) -> 0 < n /\ n <= sw /\ n <= cw /\ n <= mf.
 Proof.
-  intros Hin. pose proof (i_log _ (run_inv w bodies ops)) as HF. rewrite Forall_forall in HF. exact (HF _ Hin).
+  intros Hin. pose proof (i_log _ (run_inv w apps ops)) as HF. rewrite Forall_forall in HF. exact (HF _ Hin).
 Qed.
 
-Lemma reach_body w bodies ops :
-  let s := run w bodies ops in
+Lemma reach_body w apps ops :
+  let s := run w apps ops in
   (forall i snt bdy, In (EEnd i snt bdy) (log s) -> snt = bdy) /\
   (forall x, In x (streams s) -> sent x + sum_data (q x) = body x).
 Proof.
-  cbv zeta. pose proof (run_inv w bodies ops) as [Hl Hs]. rewrite Forall_forall in Hl, Hs. split.
+  cbv zeta. pose proof (run_inv w apps ops) as [Hl Hs]. rewrite Forall_forall in Hl, Hs. split.
   - intros i snt bdy Hin. exact (Hl _ Hin).
   - intros x Hin. apply (Hs x Hin).
 Qed.
 
 (** any scheduler choice keeps the invariant, and a chosen stream with data and open windows sends *)
+Lemma flow_blocked_log i s e : In e (log s) -> In e (log (flow_blocked i s)).
+Proof.
+  intros H. unfold flow_blocked. destruct (find_stream i (streams s)); [|exact H].
+  destruct (hasprod s0 && producing s0); [right; exact H | exact H].
+Qed.
+
 Lemma any_choice_sends i s x n rest :
   find_stream i (streams s) = Some x -> q x = Some n :: rest ->
   0 < n -> 0 < swin x -> 0 < cwin s -> 0 < maxf s ->
-  log (adv_on i s) =
-  EData i (Z.min n (Z.min (maxf s) (Z.min (swin x) (cwin s)))) (swin x) (cwin s) (maxf s) :: log s.
+  In (EData i (Z.min n (Z.min (maxf s) (Z.min (swin x) (cwin s)))) (swin x) (cwin s) (maxf s))
+     (log (adv_on i s)).
 Proof.
-  intros Ef Eq Hn Hsw Hcw Hmf. unfold adv_on. rewrite Ef.
+  intros Ef Eq Hn Hsw Hcw Hmf. unfold adv_on. rewrite Ef. unfold locwin at 1.
   destruct (Z.ltb_spec (Z.min (swin x) (cwin s)) 0); [lia|]. rewrite Eq.
   assert (E : frame_len (cwin s) (maxf s) x = Z.min n (Z.min (maxf s) (Z.min (swin x) (cwin s)))).
-  { unfold frame_len. rewrite Eq. lia. }
-  rewrite E. destruct (Z.ltb_spec 0 (Z.min n (Z.min (maxf s) (Z.min (swin x) (cwin s))))); [reflexivity | lia].
+  { unfold frame_len, locwin. rewrite Eq. lia. }
+  rewrite E.
+  destruct (Z.ltb_spec 0 (Z.min n (Z.min (maxf s) (Z.min (swin x) (cwin s))))); [|lia].
+  cbn [resched log].
+  match goal with |- In ?e (log (match ?m with Some y => _ | None => ?s1 end)) =>
+    assert (H1 : In e (log s1)) by (left; reflexivity); destruct m end; [|exact H1].
+  destruct (rem_out _ _ <=? 0); [apply flow_blocked_log, H1 | exact H1].
 Qed.
 
 Example ex_negative_window_waits :
-  (* SETTINGS_INITIAL_WINDOW_SIZE 100 -> 40 after 100 bytes: window -60; nothing is sent until it reopens,
-     then the rest of the body and END_STREAM follow *)
-  rev (log (run 100 [[300]] [Adv; SetIW 40; Adv; Adv; WU 1 1000; Adv; Adv]))
+  rev (log (run 100 [Static [300]] [Adv; SetIW 40; Adv; Adv; WU 1 1000; Adv; Adv]))
   = [EData 1 100 100 65535 16384; EData 1 200 940 65435 16384; EEnd 1 300 300].
 Proof. vm_compute. reflexivity. Qed.
 
 Example ex_two_streams_share_connection_window :
-  let s := run 65535 [[40000]; [40000]] [Adv; Adv; Adv; Adv; Adv; Adv] in
+  let s := run 65535 [Static [40000]; Static [40000]] [Adv; Adv; Adv; Adv; Adv; Adv] in
   cwin s = 0 /\ map (fun x => (sid x, sent x)) (streams s) = [(1%nat, 32768); (3%nat, 32767)].
 Proof. vm_compute. auto. Qed.
+
+(** the body filled the window exactly, the sender parks, SETTINGS makes the window negative, the application
+    finishes, the peer reopens the window: the stream is ended *)
+Example ex_finish_while_negative_completes :
+  rev (log (run 10 [Manual [10]] [AppWrite 1; Adv; Adv; SetIW 4; AppFinish 1; Adv; WU 1 20; Adv; Adv]))
+  = [EData 1 10 10 65535 16384; EEnd 1 10 10].
+Proof. vm_compute. reflexivity. Qed.
+
+(** data queued at an exhausted window while the sender is parked is sent as soon as the window reopens *)
+Example ex_window_reopen_wakes_parked_sender :
+  rev (log (run 10 [Manual [10; 5]] [AppWrite 1; Adv; Adv; AppWrite 1; WU 1 20]))
+  = [EData 1 10 10 65535 16384; EData 1 5 20 65525 16384].
+Proof. vm_compute. reflexivity. Qed.
+
+(** a producer that filled the connection window exactly is resumed by a connection-level WINDOW_UPDATE *)
+Example ex_connection_window_resumes_producer :
+  let s := run 16777216 [Static [535]; Producer 6500 20]
+               [Adv; Adv; Adv; Adv; Adv; Adv; Adv; Adv; Adv; Adv; Adv; Adv; Adv; Adv; WU 0 65535] in
+  In (EResume 3) (log s) /\ exists x, find_stream 3 (streams s) = Some x /\ body x = 130000 /\ finished x = true.
+Proof. vm_compute. split; [auto 20 | eexists; split; [reflexivity | auto]]. Qed.
